@@ -33,7 +33,7 @@ SPEC = {
         "64-bit usize; std f64::ln only in a diagnostic",
     ],
     "tiers": {
-        "quick": {"shards": 8, "budget_s": 45},
+        "quick": {"shards": 8, "budget_s": 80},
         "thorough": {"shards": 16, "budget_s": 900},
     },
     "floors": {
